@@ -19,14 +19,15 @@ InitRegisters == /\ TLCSet(1, <<>>)
                  /\ TLCSet(2, [k \in {} |-> 0])
                  /\ TLCSet(3, 0)
 
-Bump(appl) ==
+\* every clause that was evaluated gets a counter (0 = never applicable: vacuity is visible)
+Bump(names, appl) ==
   LET old == TLCGet(2) IN
-  TLCSet(2, [k \in (DOMAIN old) \cup appl |->
+  TLCSet(2, [k \in (DOMAIN old) \cup names |->
                 (IF k \in DOMAIN old THEN old[k] ELSE 0) + (IF k \in appl THEN 1 ELSE 0)])
 
 \* tag identifies the step (any value ToJson can print)
 Judge(tag, S) ==
-  /\ Bump(Appl(S))
+  /\ Bump({x.n : x \in S}, Appl(S))
   /\ TLCSet(3, TLCGet(3) + 1)
   /\ IF Failed(S) = {} THEN TRUE
      ELSE TLCSet(1, Append(TLCGet(1), [at |-> tag, failed |-> Failed(S)]))
